@@ -273,16 +273,27 @@ def checker_msg(err):
     return msg[:90]
 
 
+NONSTRICT = [False]      # the pass being run: strict (default) or --no-strict on both sides
+
+
+def _kw():
+    return {"strict": False} if NONSTRICT[0] else {}
+
+
+def _refkw():
+    return {"eager": True, "strict": False} if NONSTRICT[0] else {"eager": True}
+
+
 def build_category(stmts, srv, d=None):
     """None if eval fails, or the reference fails, or build agrees; else a category string."""
     try:
         src = pr_prog(stmts)
     except ValueError:
         return None
-    ev = srv.req({"op": "eval", "src": src})
+    ev = srv.req(dict({"op": "eval", "src": src}, **_kw()))
     if "ok" not in ev:
         return None
-    ref = c01.reference(stmts, {"eager": True})
+    ref = c01.reference(stmts, _refkw())
     if ref is None or ref[0] != "ok":
         return None
     d = d or scratch_dir()
@@ -290,7 +301,7 @@ def build_category(stmts, srv, d=None):
     with open(path, "w") as f:
         f.write(src + "\n")
     try:
-        b = srv.req({"op": "build", "path": path})
+        b = srv.req(dict({"op": "build", "path": path}, **_kw()))
     finally:
         os.unlink(path)
     if "ok" in b:
@@ -322,6 +333,15 @@ def concatenates_unlike_lists(stmts):
     except Exception:
         return False
     return it.hetero_concat
+
+
+def selects_null(stmts):
+    it = refsem.Interp(eager=True, strict=False)
+    try:
+        it.run(stmts)
+    except Exception:
+        return False
+    return it.null_selections > 0
 
 
 def construct_class(stmts):
@@ -362,13 +382,13 @@ def work(chunk):
         except ValueError:
             continue
         progs.append((desc, st, src))
-    evs = srv.req_many([{"op": "eval", "src": src} for _, _, src in progs])
+    evs = srv.req_many([dict({"op": "eval", "src": src}, **_kw()) for _, _, src in progs])
     todo = []
     for (desc, st, src), ev in zip(progs, evs):
         if "ok" not in ev:
             hist["eval-fails(skipped)"] = hist.get("eval-fails(skipped)", 0) + 1
             continue
-        ref = c01.reference(st, {"eager": True})
+        ref = c01.reference(st, _refkw())
         if ref is None or ref[0] != "ok":
             hist["reference-fails(skipped)"] = hist.get("reference-fails(skipped)", 0) + 1
             continue
@@ -376,7 +396,7 @@ def work(chunk):
         with open(path, "w") as f:
             f.write(src + "\n")
         todo.append((desc, st, src, ev, path))
-    bs = srv.req_many([{"op": "build", "path": p} for (_, _, _, _, p) in todo])
+    bs = srv.req_many([dict({"op": "build", "path": p}, **_kw()) for (_, _, _, _, p) in todo])
     viol = []
     for (desc, st, src, ev, path), b in zip(todo, bs):
         os.unlink(path)
@@ -398,6 +418,17 @@ def work(chunk):
     srv.recycle()      # the op cache keeps every built file; start the next chunk from an empty one
     return {"evals": len(progs), "nontrivial": len(todo), "hist": hist, "viol": viol[:400],
             "sample": todo[len(todo) // 2][2].split("\n")[-1] if todo else None}
+
+
+def work_nonstrict(chunk):
+    NONSTRICT[0] = True
+    try:
+        part = work(chunk)
+    finally:
+        NONSTRICT[0] = False
+    part["hist"] = {"nonstrict:" + k: v for k, v in part["hist"].items()}
+    part["viol"] = [(a, b, "nonstrict:" + c, d) for a, b, c, d in part["viol"]]
+    return part
 
 
 def run(ctx):
@@ -446,6 +477,27 @@ def run(ctx):
             ctx.sample(part["sample"])
         viol.extend(part["viol"])
 
+    # the same comparison with --no-strict on both sides (missing fields and unset variables are
+    # NULL there): documented forms, the three grids, S1 and S2
+    def ns_descs():
+        for d, st in itertools.chain(documented_forms(), function_grid(), nested_call_grid(), producer_consumer_grid()):
+            if d[1].startswith("fgrid2:"):
+                continue
+            yield ("doc", d, st)
+        for op in c01.OPS:
+            for a in range(c01.NLEAVES):
+                for b in range(c01.NLEAVES):
+                    yield ("s1", op, a, b)
+        for t in range(nt):
+            for leaf in range(c01.NLEAVES):
+                yield ("path", (t,), leaf, False)
+
+    for part in core.pmap_gen(work_nonstrict, ns_descs(), chunk=1200):
+        ctx.count(part["evals"], part["nontrivial"])
+        for k, v in part["hist"].items():
+            ctx.outcome(k, v)
+        viol.extend(part["viol"])
+
     import ast as _ast
     viol.sort(key=lambda v: (len(v[1]), v[1]))
     srv = core.Server()
@@ -461,6 +513,7 @@ def run(ctx):
     try:
         for ast_s, src, oc, detail in viol:
             st = _ast.literal_eval(ast_s)
+            NONSTRICT[0] = oc.startswith("nonstrict:")
             cat = build_category(st, srv)
             if cat is None:
                 ctx.machinery_errors.append("not reproducible alone: %s" % src.split("\n")[-1])
@@ -475,15 +528,23 @@ def run(ctx):
                 # one recorded defect (the checker wants the two lists of a + to have one element type) reached
                 # through any construct; labelled by what the minimal witness does, not by the message
                 sig = "checker-rejects: heterogeneous list concatenation :: %s" % construct_class(wit)
+            elif NONSTRICT[0]:
+                sig = "nonstrict: " + sig
+                if cat.startswith("checker-rejects") and selects_null(wit):
+                    # one recorded defect (the checker is never told about --no-strict) reached through every
+                    # selection the VM turns into NULL there; labelled by what the minimal witness does
+                    sig = "nonstrict: checker-rejects a selection that is NULL under --no-strict :: %s" % construct_class(wit)
             if sig in seen:
                 ctx.violations[sig]["count"] += 1
                 continue
             seen[sig] = 1
             ctx.violation(sig, "%s although `%s` evaluates (found as `%s`)" % (cat, pr_prog(wit[c01.prelude_len(wit):]).replace("\n", " "), src.split("\n")[-1][:100]),
-                          {"kind": "eval-vs-build", "src": pr_prog(wit), "ast": repr(wit), "category": cat, "original": src, "detail": detail})
+                          {"kind": "eval-vs-build", "src": pr_prog(wit), "ast": repr(wit), "category": cat, "original": src, "detail": detail,
+                           "nonstrict": NONSTRICT[0]})
             if len(seen) > 300:
                 break
     finally:
+        NONSTRICT[0] = False
         srv.close()
 
 
@@ -498,8 +559,10 @@ def replay(case):
         return cat is None, {"category_now": cat}
     st = _ast.literal_eval(case["ast"])
     srv = core.Server()
+    NONSTRICT[0] = bool(case.get("nonstrict"))
     try:
         cat = build_category(st, srv)
     finally:
+        NONSTRICT[0] = False
         srv.close()
     return cat is None, {"category_now": cat}
